@@ -319,6 +319,14 @@ func ruleEmptyCollection(c *Ctx) {
 								hit = true
 							}
 						}
+						// a helper that stores an object into the collection it is given, on every path
+						if f := callee(info, call); f != nil {
+							for i, a := range call.Args {
+								if id, ok := ast.Unparen(a).(*ast.Ident); ok && info.ObjectOf(id) == col && mustSetParam(c, f, i) {
+									hit = true
+								}
+							}
+						}
 					}
 					return true
 				})
@@ -382,4 +390,62 @@ func freshLookupFacts(info *types.Info, fresh types.Object) func(ast.Node, map[i
 		out[identFact{info.ObjectOf(id), true}] = true
 		return out
 	}
+}
+
+var mustSetCache = map[string]bool{}
+
+// mustSetParam: every path through f to a normal return passes a Collection.Set on its i-th parameter.
+func mustSetParam(c *Ctx, f *types.Func, i int) bool {
+	k := fmt.Sprintf("%p/%d", f, i)
+	if v, ok := mustSetCache[k]; ok {
+		return v
+	}
+	mustSetCache[k] = false
+	fi := c.FuncOf(f)
+	if fi == nil || fi.Decl.Body == nil {
+		return false
+	}
+	sig := f.Type().(*types.Signature)
+	if i >= sig.Params().Len() {
+		return false
+	}
+	p := sig.Params().At(i)
+	info := fi.Info()
+	fg := newFlowGraph(info, fi.Decl.Body)
+	isSet := func(n ast.Node) bool {
+		hit := false
+		inspectNoLit(n, func(y ast.Node) bool {
+			if call, ok := y.(*ast.CallExpr); ok {
+				if g := callee(info, call); g != nil && isMethod(g, colPath, "Collection", "Set") {
+					if id, ok := ast.Unparen(ast.Unparen(call.Fun).(*ast.SelectorExpr).X).(*ast.Ident); ok && info.ObjectOf(id) == p {
+						hit = true
+					}
+				}
+			}
+			return true
+		})
+		return hit
+	}
+	any := false
+	for _, b := range fg.G.Blocks {
+		for _, n := range b.Nodes {
+			if isSet(n) {
+				any = true
+			}
+		}
+	}
+	if !any {
+		return false
+	}
+	skip, _ := fg.Reach(PathQuery{
+		Target: func(l Loc) bool {
+			if r, ok := l.Node.(*ast.ReturnStmt); ok {
+				return !returnsError(info, fi, r)
+			}
+			return len(l.Block.Succs) == 0 && l.Idx == len(l.Block.Nodes)-1
+		},
+		Avoid: func(l Loc) bool { return isSet(l.Block.Nodes[l.Idx]) },
+	})
+	mustSetCache[k] = !skip
+	return !skip
 }
